@@ -562,6 +562,7 @@ def fits_prelude():
     return ('#include <stdint.h>\n#include <stddef.h>\n#include <stdbool.h>\n#include <limits.h>\n' + "".join("#define %s %d\n" % kv for kv in sorted(c.items())) + r'''
 typedef long fitsfile;                       /* opaque: only passed through to the cfitsio model */
 typedef double* double_ptr; typedef char* char_ptr; typedef char_ptr* char_ptr_ptr; typedef char_ptr_ptr* char_ptr_ptr_ptr;
+typedef uint32_t* uint32_t_ptr; typedef uint64_t* uint64_t_ptr; typedef float* float_ptr; typedef double_ptr* double_ptr_ptr;     /* the class's other allocator pointer typedefs */
 /* members of splinetable<Alloc> (R1) */
 uint32_t ndim; uint32_t* order; double** knots; uint64_t* nknots; double** extents; double* periods; float* coefficients; uint64_t* naxes; uint64_t* strides; uint32_t naux; char_ptr_ptr_ptr aux;
 uint64_t** const vp_this_naxes_p = &naxes;   /* `this->naxes` where a local of the same name shadows the member (R14) */
@@ -630,6 +631,7 @@ def _fits_common(r, body, throw_repl):
     body = X.strip_comments(body)
     body = replace_throws(r, body, throw_repl)
     body = r.sub("R25_raii_guard", r"struct fits_cleanup\{.*?\}\s*cleanup\(fits\);", "", body, flags=re.S)
+    body = r.sub("R30_report_error", r"fits_report_error\(stderr,\s*(\w+)\)", r"vp_report_error(\1)", body)
     body = r.sub("R26_ostringstream", r"std::ostringstream (\w+);\s*\1 << \"(\w+)\" << i;", r'char \1[32]; vp_key_name(\1, "\2", i);', body)
     body = r.sub("R26_str_c_str", r"const_cast<char\*>\((\w+)\.str\(\)\.c_str\(\)\)", r"\1", body)
     body = r.sub("R26_str_c_str", r"(\w+)\.str\(\)\.c_str\(\)", r"\1", body)
